@@ -214,8 +214,23 @@ def sameTargets (c : ChanState) (qs : List Nat) : Bool :=
   | some l => decide (l.targets = qs)
   | none => false
 
+/-- The part of `add_target` after the fall wait: the retarget time is computed from the
+(new) end of the channel, adjusted, checked against the maximum duration and appended. -/
+def addTargetTail (maxSeq : Option Nat) (c : ChanState) (qs : List Nat) : Except Err ChanState :=
+  match c.last with
+  | .error e => .error e
+  | .ok last =>
+    let delta1 := retargetDelta c last.tf
+    match (if delta1 ≠ 0 then c.adjust delta1.toNat else .ok 0) with
+    | .error e => .error e
+    | .ok delta =>
+      match checkDuration maxSeq (last.tf + (delta : Int)) with
+      | .error e => .error e
+      | .ok _ =>
+        .ok { c with slots := c.slots ++ [⟨.target, last.tf, last.tf + (delta : Int), qs⟩] }
+
 /-- `_Schedule.add_target` on one channel (mutation order kept: the fall wait
-is appended before the target comparison and before any later check). -/
+is appended before any later check). -/
 def addTarget (maxSeq : Option Nat) (c : ChanState) (qs : List Nat) : CRes :=
   if c.slots.isEmpty then
     CRes.lift c (do
@@ -225,19 +240,7 @@ def addTarget (maxSeq : Option Nat) (c : ChanState) (qs : List Nat) : CRes :=
     -- retargeting to the same qubits inserts nothing (checked before the fall wait: repair of F4)
     ⟨c, none⟩
   else
-    (CRes.lift c (waitForFall maxSeq c)).bind fun c =>
-      CRes.lift c (
-        match c.last with
-        | .error e => .error e
-        | .ok last =>
-          let delta1 := retargetDelta c last.tf
-          match (if delta1 ≠ 0 then c.adjust delta1.toNat else .ok 0) with
-          | .error e => .error e
-          | .ok delta =>
-            match checkDuration maxSeq (last.tf + (delta : Int)) with
-            | .error e => .error e
-            | .ok _ =>
-              .ok { c with slots := c.slots ++ [⟨.target, last.tf, last.tf + (delta : Int), qs⟩] })
+    (CRes.lift c (waitForFall maxSeq c)).bind fun c => CRes.lift c (addTargetTail maxSeq c qs)
 
 /-- Inner loop of `_find_add_delay` over the reversed slots of one other channel. -/
 def findAddDelayChan (rise2 : Nat) (inEom : Bool) (myTargets : List Nat) (waitAll : Bool)
